@@ -1050,7 +1050,7 @@ func TestC08_Replay(t *testing.T) {
 // every file-system mutation. Every image (and the final directory) must recover to the state recovered from the
 // pre-compaction image - twice in a row, because the first recovery compacts again at start-up.
 
-var c16PointNames = map[int]string{6: "rewrite.aof.tmp written and closed", 7: "an input file removed", 8: "its value file removed",
+var c16PointNames = map[int]string{104: "rewrite.aof.tmp partly written (records of a flush written, their values not yet)", 120: "rewrite.aof.tmp partly written (before a flush)", 6: "rewrite.aof.tmp written and closed", 7: "an input file removed", 8: "its value file removed",
 	9: "rewrite.aof.tmp renamed to rewrite.aof", 10: "rewrite.aof.tmp.dat renamed", 11: "old append file closed", 12: "new append file opened"}
 
 const c16KeyRemoveBeforeRename = "C16:crash-after-inputs-removed-before-rename"
@@ -1102,7 +1102,28 @@ func c16Run(c *aCase, next func(e *aEnv) []aOp) (info c16Info, err error) {
 	var images []image
 	known := vIsKnown(c16KeyRemoveBeforeRename) && c16Probe != c16KeyRemoveBeforeRename
 	removed := false
+	inCompaction, flushes := false, 0
 	vSetYieldExtra(func(point int) {
+		if point == verifPointAofRewrite {
+			inCompaction = true
+		}
+		if point == verifPointAofRewrite+9 {
+			inCompaction = false
+		}
+		if inCompaction && !removed && (point == verifPointAofFlushMid || point == verifPointAofFlushStart) {
+			// rewrite.aof.tmp is being written (the inputs are still complete): crash images in the middle of it, at the
+			// 1st, 2nd, 4th, 8th flush - before its records are written (120) and between records and values (104)
+			if point == verifPointAofFlushStart {
+				flushes++
+			}
+			if flushes == 1 || flushes == 2 || flushes == 4 || flushes == 8 {
+				d := vScratchDir("c16img")
+				if vCopyDir(c.DataDir, d) == nil {
+					images = append(images, image{100 + point, d})
+				}
+			}
+			return
+		}
 		name, ok := c16PointNames[point-verifPointAofRewrite+5]
 		_ = name
 		if !ok {
